@@ -98,7 +98,7 @@ func c17Run(plan *C17Plan) (*c16Violation, map[string]bool) {
 			segDone <- -1
 			return
 		}
-		rd := sc.waitReady(3 * time.Second)
+		rd := sc.waitReady(15 * time.Second)
 		if rd == nil {
 			segDone <- -1
 			return
@@ -210,7 +210,7 @@ func c17Run(plan *C17Plan) (*c16Violation, map[string]bool) {
 			if r < 0 {
 				return &c16Violation{"C17/harness/handshake", "a connection did not complete its handshake"}, flagsRaw
 			}
-		case <-time.After(8 * time.Second):
+		case <-time.After(40 * time.Second):
 			return &c16Violation{"C17/harness/segments", fmt.Sprintf("only %d of %d planned connections happened", i, want)}, flagsRaw
 		}
 	}
